@@ -11,6 +11,7 @@ import (
 	"bytes"
 	"context"
 	"fmt"
+	"os"
 	"strings"
 	"testing"
 
@@ -256,6 +257,64 @@ func faultWorld(mode string, big bool) *world {
 	return w
 }
 
+// startupFaultWorld: resource exhaustion while the engine starts (epoll_create1 / eventfd failing,
+// the registration of the wake-up eventfd or of a listener failing). Run must report the failure
+// (or succeed when nothing was injected), without panic, without closing descriptors it does
+// not own and without leaving descriptors or the socket file behind.
+func startupFaultWorld(loops int, reuseport bool) *world {
+	w := newWorld("startup-fault")
+	w.opts = []Option{WithNumEventLoop(loops)}
+	w.deviate = func(site string, fd int, n int) []string {
+		switch site {
+		case "epoll_create1", "eventfd":
+			return []string{"EMFILE"}
+		case "epoll_ctl_add":
+			if k := mcsys.KindOf(fd); k == "eventfd" || k == "socket" {
+				return []string{"ENOMEM"}
+			}
+		}
+		return nil
+	}
+	w.script = func(w *world) {
+		sched.Go("ctl", func() {
+			sched.BlockUntil(func() bool { return w.booted || w.runDone })
+			if w.runDone {
+				return
+			}
+			sched.WaitIdle()
+			if !w.runDone {
+				_ = w.eng.Stop(context.Background())
+			}
+		})
+	}
+	w.deadlockOK = true // a failed start leaves gnet's already started loop goroutines parked on closed pollers (a goroutine leak, outside the properties)
+	w.checks = append(w.checks, checkEnd, func(w *world, out *sched.Outcome) (string, string) {
+		injected := ""
+		for _, e := range mcsys.L.Events {
+			if e.Inject != "" {
+				injected = e.Op + ":" + e.Inject
+			}
+		}
+		if !w.runDone {
+			return fmt.Sprintf("after injecting %s at start-up Run never returned (end=%s blocked=%v)", injected, out.End, out.Blocked), "startup:hang:" + injected
+		}
+		if injected != "" && w.runErr == nil && w.shutdowns == 0 {
+			return fmt.Sprintf("%s was injected at start-up but Run returned nil without ever running", injected), "startup:swallowed:" + injected
+		}
+		if len(mcsys.L.Violations) > 0 {
+			return "after injecting " + injected + " at start-up: " + mcsys.L.Violations[0], "startup:" + mcsys.L.Sigs[0]
+		}
+		if open := mcsys.OpenFrameworkFds(); len(open) > 0 {
+			return fmt.Sprintf("after injecting %s at start-up Run returned %v but left descriptors open: %v", injected, w.runErr, open), "startup:fdleak:" + injected
+		}
+		if _, err := os.Stat(strings.TrimPrefix(w.addr, "unix://")); err == nil {
+			return fmt.Sprintf("after injecting %s at start-up Run returned %v but the unix-socket file is still there", injected, w.runErr), "startup:sockfile:" + injected
+		}
+		return "", ""
+	})
+	return w
+}
+
 func faultSchedConfigs() ([]sched.Config, func(string) *sched.Config) {
 	thorough := seqmc.Tier() == "thorough"
 	bounds := []sched.Bound{{PB: 0, DB: 0}, {PB: 0, DB: 1}, {PB: 0, DB: 2}, {PB: 1, DB: 1}}
@@ -270,6 +329,12 @@ func faultSchedConfigs() ([]sched.Config, func(string) *sched.Config) {
 			out = append(out, sched.Config{Property: "C18", Name: name, Bounds: bounds, Horizon: 40000, Deadline: seqmc.Deadline(), DelayBounded: true,
 				New: func() sched.Scenario { w := faultWorld(mode, big); w.name = name; return w }})
 		}
+	}
+	for _, loops := range []int{1, 2} {
+		loops := loops
+		name := fmt.Sprintf("startup-fault/%d-loops", loops)
+		out = append(out, sched.Config{Property: "C18", Name: name, Bounds: []sched.Bound{{PB: 0, DB: 0}, {PB: 0, DB: 1}, {PB: 1, DB: 1}}, Horizon: 40000, Deadline: seqmc.Deadline(), DelayBounded: true,
+			New: func() sched.Scenario { w := startupFaultWorld(loops, false); w.name = name; return w }})
 	}
 	return out, func(name string) *sched.Config {
 		for i := range out {
